@@ -50,8 +50,16 @@ package webrtc
 //@ requires sdp != nil
 //@ requires forall k int :: 0 <= k && k < len(sdp.MediaDescriptions) ==> sdp.MediaDescriptions[k] != nil
 //@ ensures result ==> ((ufbool("sattrok", sdp, "ice-ufrag") && ufstr("sattr", sdp, "ice-ufrag") == matchUfrag) || (exists k int :: 0 <= k && k < len(sdp.MediaDescriptions) && ufbool("mattrok", sdp.MediaDescriptions[k], "ice-ufrag") && ufstr("mattr", sdp.MediaDescriptions[k], "ice-ufrag") == matchUfrag))
+// ... and conversely: a ufrag the description does contain, at either level, is found (a
+// candidate of the current generation is never dropped).
+//@ ensures ufbool("sattrok", sdp, "ice-ufrag") && ufstr("sattr", sdp, "ice-ufrag") == matchUfrag ==> result
+// (stated for an arbitrary fixed index w = ufint("ufragWitness"): an uninterpreted constant, so the
+// clause holds for every index; this keeps the loop invariant free of quantifiers)
+//@ ensures 0 <= ufint("ufragWitness") && ufint("ufragWitness") < len(sdp.MediaDescriptions) && ufbool("mattrok", sdp.MediaDescriptions[ufint("ufragWitness")], "ice-ufrag") && ufstr("mattr", sdp.MediaDescriptions[ufint("ufragWitness")], "ice-ufrag") == matchUfrag ==> result
 //@ modifies nothing
 //@ loop 0 invariant rangeindex < len(sdp.MediaDescriptions)
+//@ loop 0 invariant !(ufbool("sattrok", sdp, "ice-ufrag") && ufstr("sattr", sdp, "ice-ufrag") == matchUfrag)
+//@ loop 0 invariant 0 <= ufint("ufragWitness") && ufint("ufragWitness") <= rangeindex ==> !(ufbool("mattrok", sdp.MediaDescriptions[ufint("ufragWitness")], "ice-ufrag") && ufstr("mattr", sdp.MediaDescriptions[ufint("ufragWitness")], "ice-ufrag") == matchUfrag)
 
 // AddICECandidate: a parsed candidate that carries a ufrag extension reaches the ICE
 // transport only if the applied remote description contains that ufrag; otherwise the call
